@@ -7,6 +7,7 @@ import (
 	"github.com/z7zmey/php-parser/verifmc/core"
 	"github.com/z7zmey/php-parser/verifmc/corpus"
 	"github.com/z7zmey/php-parser/verifmc/drive"
+	"github.com/z7zmey/php-parser/verifmc/ebytes"
 	"github.com/z7zmey/php-parser/verifmc/oracle"
 )
 
@@ -38,7 +39,7 @@ var c04Bytes func(c *core.Ctx, one func(c *core.Ctx, cs srcCase)) // E-bytes sli
 func c04Run(c *core.Ctx) {
 	level := 2
 	if c.Thorough() {
-		level = 4
+		level = 5
 	}
 	for _, fam := range []string{"php7", "php5"} {
 		f := corpus.MustFam(fam)
@@ -46,7 +47,7 @@ func c04Run(c *core.Ctx) {
 			if !it.ScanOK {
 				continue
 			}
-			deep := level == 2 || strings.Count(it.Why, "child") < 2
+			deep := true
 			forDeviations(it, deep && it.Valid, deep && it.Valid, func(src, why string) {
 				for vi, v := range famVersions[fam] {
 					if vi > 0 && why != it.Why {
@@ -60,7 +61,7 @@ func c04Run(c *core.Ctx) {
 					c.Sample(cs)
 				}
 			})
-			if c.Thorough() && it.Valid && strings.Count(it.Why, "pos") == 0 {
+			if c.Thorough() && it.Valid && strings.Count(it.Why, "pos") <= 1 && strings.Count(it.Why, "pair") == 0 {
 				forTwoDeviations(it, func(src, why string) {
 					if c.Next() {
 						c04One(c, mkCase(src, f.V, why))
@@ -107,4 +108,24 @@ func init() {
 		Run:    c04Run,
 		Replay: replaySrc(c04One),
 	})
+}
+
+func init() {
+	// E-bytes slice: every short byte string from every scanner context — whatever tree comes back (mostly
+	// with errors) must still carry exact text, offsets and lines.
+	c04Bytes = func(c *core.Ctx, one func(c *core.Ctx, cs srcCase)) {
+		n := 2
+		if c.Thorough() {
+			n = 3
+		}
+		forBytes(c, ebytes.Sigma, n, ebytes.Contexts, func(src string, _ int) {
+			one(c, mkCase(src, drive.V74, "E-bytes"))
+			one(c, mkCase(src, drive.V56, "E-bytes"))
+		})
+		forBytes(c, ebytes.Core, n+1, ebytes.Contexts, func(src string, k int) {
+			if k > n {
+				one(c, mkCase(src, drive.V74, "E-bytes core"))
+			}
+		})
+	}
 }
